@@ -35,6 +35,15 @@ def raws(ctx):
     out = list(gen.exhaustive(['a', ' ', '"', "'", '\\', 'n'], 5 if ctx.thorough else 4))
     out += ['sh -c "" foo', "a '' b", '""', "''", 'a\\ b', 'a\\', '"a', "'a b", 'a\tb\nc\rd', 'x="y z" w', '\\x41\\u00e9\\U0001d11e\\101',
             'a "b\'c" d', "foo'bar'baz", '  lead', 'trail  ', '\\s\\t', 'é ü', '\\q', '\\x4', '\\08', '\\x00', 'a;b', '%h %%']
+    # numeric escapes in every spelling of their digits (lower case, UPPER CASE, mixed), in the middle of a word list: bare, inside
+    # double quotes, inside single quotes — the words after the escape count as much as the word that holds it
+    for cp in (0x41, 0x2d, 0x2f, 0x3a, 0x4a, 0x5c, 0x6b, 0x7e, 0x1b, 0x0a, 0x7f, 0xe9, 0x20ac, 0x1d11e, 0xabcd, 0xfffd):
+        forms = ['\\u%04x' % cp, '\\u%04X' % cp, '\\U%08x' % cp, '\\U%08X' % cp] if cp <= 0xffff else ['\\U%08x' % cp, '\\U%08X' % cp]
+        if cp < 0x80:
+            forms += ['\\x%02x' % cp, '\\x%02X' % cp, '\\%03o' % cp]
+        forms += [f[:2] + ''.join(ch.upper() if i % 2 else ch for i, ch in enumerate(f[2:])) for f in forms if f[1] in 'xuU']
+        for f in forms:
+            out += [f'pre {f} post last', f'"q {f}" tail end', f"'{f}' t", f'a{f}b c', f'{f}']
     n = 20000 if ctx.thorough else 4000
     al = [c for c in gen.WIDE if c != '\x00']
     for _ in range(n):
